@@ -186,6 +186,8 @@ def generate(tier, seed, ctx):
         # ---- 3-D ------------------------------------------------------------------------------
         cheap = m in ("Trapezoidal", "Adaptive-Simpson")
         for orient in range(8):     # the full orientation cross product of the three limit pairs
+            if m == "Tanh-Sinh" and not thorough and orient not in (0, 7, [3, 5, 6][seed % 3]):
+                continue                # (cost: ~0.6 s each; the eight patterns are met with the other five methods)
             (x1, x2), (y1, y2), (z1, z2) = _disjoint_pairs(rng, 3, orient)
             if orient % 2 == 0 or cheap:
                 ts = [(1.0, 1, 0, 0), (2.0, 0, 1, 0), (3.0, 0, 0, 1)]
@@ -204,8 +206,8 @@ def generate(tier, seed, ctx):
                 add("c13.fam3 %s 0 %s %s %s %s %s %s 1 %s %s %s" % (m, hx(x1), hx(x2), hx(y1), hx(y2), hx(z1), hx(z2),
                                                                  _famstr(g), _famstr(h), _famstr(k)), cls="fam", orient=orient, pc=False)
         # ---- spherical overload ---------------------------------------------------------------------
-        for t in range(2 * rep):      # full sphere: 4 pi * radial integral
-            orient = t % 2
+        for t in range(2 * rep if (thorough or m not in ("Trapezoidal", "Tanh-Sinh")) else 1):      # full sphere: 4 pi * radial integral
+            orient = (t + seed) % 2
             r1, r2 = _pair(rng, 0.2, 3.0, orient)
             ts = [(float(rng.choice([1, 2, 3])), rng.randint(0, 1 if cheap else 4), 0, 0), (0.5, 0, 0, 0)]
             p = 0 if t < 1 else _param(rng, m, 6)
@@ -217,7 +219,9 @@ def generate(tier, seed, ctx):
         if thorough or m not in ("Trapezoidal", "Tanh-Sinh"):
             pats = list(range(8))
         else:
-            pats = [3, 5, 6]      # (the other five patterns are met with the four cheaper methods)
+            # quick tier, the two expensive methods: ONE pattern with exactly two reversed pairs, rotating with the seed
+            # (all eight patterns are met with the four cheaper methods in quick and with every method in thorough)
+            pats = [[3, 5, 6][(seed + (m == "Tanh-Sinh")) % 3]]
         for orient in pats:
             r1, r2 = _pair(rng, 0.2, 3.0, orient & 1)
             c1, c2 = _pair(rng, -0.95, 0.95, (orient >> 1) & 1)
@@ -377,7 +381,7 @@ def generate(tier, seed, ctx):
             else:
                 fx, fy, fz = _fam(rng, x1, x2), _fam(rng, y1, y2), _fam(rng, z1, z2)
             add("c13.neg 2 %s 0 %s %s %s %s %s %s" % (m, hx(x1), hx(x2), hx(y1), hx(y2), _famstr(fx), _famstr(fy)), cls="neg2")
-            if not (slow and t % 2 == 0):
+            if not (slow and t % 2 == 0) and not (m == "Tanh-Sinh" and not thorough and t > 0):
                 add("c13.neg 3 %s 0 %s %s %s %s %s %s %s %s %s" % (m, hx(x1), hx(x2), hx(y1), hx(y2), hx(z1), hx(z2),
                                                                 _famstr(fx), _famstr(fy), _famstr(fz)), cls="neg3")
     # ---- Monte-Carlo front ends --------------------------------------------------------------------
